@@ -282,6 +282,12 @@ def make_data(pb):
     from holopy.core.metadata import detector_grid
     model = build_model(pb, pb["truth"])
     off = pb.get("offset") or [0, 0]
+    if off[0] < 0 or off[1] < 0:
+        # a detector whose coordinate origin lies inside / beyond the image (optical axis through the field of view): the
+        # particle's x / y are negative or near zero
+        det = detector_grid(pb["n"], pb["spacing"])
+        det = det.assign_coords(x=det.x + off[0] * pb["spacing"], y=det.y + off[1] * pb["spacing"])
+        return model.forward(dict(pb["truth"]), det)
     det = detector_grid((pb["n"] + off[0], pb["n"] + off[1]), pb["spacing"])
     full = model.forward(dict(pb["truth"]), det)
     if off[0] or off[1]:
@@ -545,6 +551,8 @@ def run_case(ctx, k, rng, rec, exprs, metas, tmpdir, combo):
     import numpy as np
     theory_kind, skind, use_subset, prior_mode = combo
     offset = (rng.randint(1, 6), rng.randint(1, 6)) if k % 2 == 1 else None
+    if k % 4 == 1:
+        offset = (-rng.randint(9, 14), -rng.randint(5, 7))          # x negative everywhere, y changes sign inside the image
     pb = gen_problem(rng, theory_kind, prior_mode, offset=offset)
     ctx.count("data:%s" % ("cropped (coordinates do not start at 0)" if offset else "origin 0"))
     n2 = pb["n"] ** 2
